@@ -66,13 +66,17 @@ for e in es:
 
 out.append("\n### 11.3 Seeded breaking changes (written by fresh sub-agents that saw only the property text) and what catches them\n")
 out.append("Each was confirmed by `tools/keepseed.py` in scratch worktrees: patch applies, tree builds, existing tests pass, the demonstration fails with the change and passes without. `failing input` = the check exits 1 with a concrete replay; `obligation` = a proof or translator obligation breaks and no failing input was found (`no-failing-input-found`). `meta.json` of a seed records the /repo commit its patch applies to (`applies_to`, maintained by `tools/seedbase.py`); a seed whose lines were later touched by a `fix:` commit was re-applied by hand on the then-current HEAD where that was possible (noted), and one (a second round-2 change for C14: a minimum of one block for small stacked segments) was dropped because the repair of C14-stacked-negative made its demonstration pass.\n")
-out.append("| Seed | Property | What the change does | Needs | Caught by `./check <id> quick` |")
-out.append("|---|---|---|---|---|")
 NOTES = {}
 try:
     NOTES = json.load(open(os.path.join(ROOT, "seeded", "NOTES.json")))
 except Exception:
     pass
+_seeds = [d for d in sorted(glob.glob(os.path.join(ROOT, "seeded", "*"))) if os.path.exists(os.path.join(d, "meta.json"))]
+_missed = [os.path.basename(d) for d in _seeds if any(w in (NOTES.get(os.path.basename(d)) or json.load(open(os.path.join(d, "meta.json"))).get("caught_note") or "") for w in ("initially missed", "missed at first"))]
+_now = [os.path.basename(d) for d in _seeds if not json.load(open(os.path.join(d, "meta.json"))).get("maintainer_verification", {}).get("caught")]
+out.append("Totals: %d seeded changes kept (three rounds); %d of them were missed by the check as it stood when the seed arrived and led to a stronger generator, model or obligation (marked *initially missed* / *missed at first* below); not caught at the time of writing: %s.\n" % (len(_seeds), len(_missed), ", ".join(_now) if _now else "none"))
+out.append("| Seed | Property | What the change does | Needs | Caught by `./check <id> quick` |")
+out.append("|---|---|---|---|---|")
 for d in sorted(glob.glob(os.path.join(ROOT, "seeded", "*"))):
     mf = os.path.join(d, "meta.json")
     if not os.path.exists(mf):
